@@ -252,6 +252,9 @@ pub struct Out {
     /// serialisation drops (a restored array is always row-major)
     pub arrays_2d: u64,
     pub arrays_2d_non_standard: u64,
+    /// nominal invariants of learned quantities (weights summing to one ...): name -> was an
+    /// instance seen that is off from the nominal value by more than one epsilon?
+    pub invariants: std::collections::BTreeMap<String, bool>,
     /// panic text when using the ORIGINAL value panicked (observed as behaviour, listed in evidence)
     pub original_panics: Option<String>,
 }
@@ -267,12 +270,21 @@ pub struct FieldSeen {
     pub zero: bool,
     /// text leaves (unit enum variants, error kinds ...), first few distinct ones
     pub texts: std::collections::BTreeSet<String>,
+    /// a floating-point leaf was seen here
+    pub float: bool,
+    /// ... and one whose value is NOT exactly representable as f32 (a generic f64)
+    pub float_beyond_f32: bool,
+    /// ... and one that is not an integer (a count stored in a float is always f32-exact)
+    pub float_non_integer: bool,
 }
 impl FieldSeen {
     pub fn merge(&mut self, o: &FieldSeen) {
         self.nondefault |= o.nondefault;
         self.null |= o.null;
         self.zero |= o.zero;
+        self.float |= o.float;
+        self.float_beyond_f32 |= o.float_beyond_f32;
+        self.float_non_integer |= o.float_non_integer;
         for t in &o.texts {
             if self.texts.len() < 16 {
                 self.texts.insert(t.clone());
@@ -314,7 +326,15 @@ fn audit_walk(v: &ciborium::value::Value, path: &str, out: &mut std::collections
     };
     match v {
         V::Integer(i) => leaf(if i128::from(*i) != 0 { 2 } else { 1 }, None),
-        V::Float(f) => leaf(if *f != 0.0 { 2 } else { 1 }, None),
+        V::Float(f) => {
+            leaf(if *f != 0.0 { 2 } else { 1 }, None);
+            let e = out.entry(path.to_string()).or_default();
+            e.float = true;
+            if f.is_finite() {
+                e.float_beyond_f32 |= (*f as f32) as f64 != *f;
+                e.float_non_integer |= f.fract() != 0.0;
+            }
+        }
         V::Bool(b) => leaf(if *b { 2 } else { 1 }, None),
         V::Null => leaf(0, None),
         V::Text(t) => leaf(if !t.is_empty() { 2 } else { 1 }, Some(t)),
@@ -355,7 +375,7 @@ fn audit_walk(v: &ciborium::value::Value, path: &str, out: &mut std::collections
 
 impl Out {
     pub fn new(entry: &str, instance: &str) -> Out {
-        Out { entry: entry.to_string(), instance: instance.to_string(), variant: crate::data::variant(), f_order: crate::data::f_order(), viols: Vec::new(), cnt: Counters::default(), per_format: Default::default(), sample: None, fields: Default::default(), arrays_2d: 0, arrays_2d_non_standard: 0, original_panics: None }
+        Out { entry: entry.to_string(), instance: instance.to_string(), variant: crate::data::variant(), f_order: crate::data::f_order(), viols: Vec::new(), cnt: Counters::default(), per_format: Default::default(), sample: None, fields: Default::default(), arrays_2d: 0, arrays_2d_non_standard: 0, invariants: Default::default(), original_panics: None }
     }
     pub fn case(&self, format: &str) -> Value {
         json!({"entry": self.entry, "instance": self.instance, "variant": self.variant, "f_order": self.f_order, "format": format})
